@@ -18,6 +18,18 @@ CLAIMED = {
         note="Trusted: TLC, the transcription of Python list semantics in TraitList.tla (cross-checked on every case "
              "against the builtin list), the concretisation of abstract items (small ints / digit strings).",
         design="4/C05"),
+    "C04": dict(
+        technique=TLA + "TLC checks the C04 invariants (elements valid, length in bounds, nested) on histories of "
+                  "ContainerTraits.tla and enumerates every one-step case; cases are executed on real HasTraits objects "
+                  "with List/Dict/Set/List(List)/Dict(K,List) traits generated from the configuration; recorded "
+                  "executions (incl. seeded multi-step histories) are judged by TLC (Trace_ContainerTraits)",
+        text="Model checking of the container-attribute model (histories to depth 2/3 over all mutators with bounded "
+             "argument domains; invariants in every state) + bounded-exhaustive one-step conformance of the "
+             "implementation (5 container kinds x inner-trait modes x length bounds) judged by TLC, which also evaluates "
+             "the C04 invariant, failure atomicity and silence-on-failure on every observed post-state.",
+        note="Trusted: TLC, the container semantics of TraitList/TraitDict/TraitSet.tla, inner traits limited to Int "
+             "(strict) and CInt (coercing); nested kinds limited to List(List(T)) and Dict(K, List(T)).",
+        design="4/C04"),
     "C06": dict(
         technique=TLA + "TLC enumerates every (ordered dict, validator modes, operation, arguments) case of TraitDict.tla; "
                   "each is executed on a real TraitDict and a builtin dict; recorded executions incl. the actual "
